@@ -48,6 +48,32 @@ type Srv struct {
 	mu   sync.Mutex
 	rec  []Call
 	n    int64
+	refl map[string]bool // canonical application metadata of the reflection streams
+}
+
+// ReflMD returns the distinct application metadata sets seen on reflection streams, sorted.
+func (s *Srv) ReflMD() []string {
+	s.mu.Lock()
+	defer s.mu.Unlock()
+	var out []string
+	for k := range s.refl {
+		out = append(out, k)
+	}
+	sort.Strings(out)
+	return out
+}
+
+func (s *Srv) streamIntercept(srv interface{}, ss grpc.ServerStream, info *grpc.StreamServerInfo, handler grpc.StreamHandler) error {
+	if strings.Contains(info.FullMethod, "ServerReflection") {
+		md, _ := metadata.FromIncomingContext(ss.Context())
+		s.mu.Lock()
+		if s.refl == nil {
+			s.refl = map[string]bool{}
+		}
+		s.refl[CanonMD(md)] = true
+		s.mu.Unlock()
+	}
+	return handler(srv, ss)
 }
 
 // Count is the number of unary calls handled so far.
@@ -136,7 +162,7 @@ func CanonMsg(m proto.Message) string {
 func Start() (*Srv, error) {
 	s := &Srv{}
 	logger := slog.New(slog.NewTextHandler(io.Discard, nil))
-	s.gs = grpc.NewServer(grpc.UnaryInterceptor(s.intercept))
+	s.gs = grpc.NewServer(grpc.UnaryInterceptor(s.intercept), grpc.StreamInterceptor(s.streamIntercept))
 	server.RegisterTargetServiceServer(s.gs, server.NewServer(logger, 1))
 	reflection.Register(s.gs)
 	l, err := net.Listen("tcp", "127.0.0.1:0")
